@@ -11,6 +11,7 @@ import (
 func init() {
 	vpRegister("vpH_C10_env", vpH_C10_env)
 	vpRegister("vpH_C10_confighash", vpH_C10_confighash)
+	vpRegister("vpH_C10_confighash_order", vpH_C10_confighash_order)
 }
 
 // model of crypto/sha1 for the config hash: a collision-free digest of the
@@ -153,4 +154,34 @@ func vpH_C10_env() {
 	for i := 0; i < len(e0) && i < len(e1); i++ {
 		vpAssert("environment-independent-of-other-shell-variables", vpStrEq(e0[i], e1[i]))
 	}
+}
+
+// vpH_C10_confighash_order: two invocations with the same configuration (two
+// [buildenv] entries, one pass_env variable) and the same shell get the same
+// configuration hash whatever order Go iterates its maps in (MapOrder: every
+// range over a map is a solver-chosen permutation).
+func vpH_C10_confighash_order() {
+	vpWorldEnv = [2]map[string]string{{}, {}}
+	vpWorldSet = [2]map[string]bool{{}, {}}
+	vpSetWorldVar(0, "PASSED", "v")
+	vpSetWorldVar(0, "PATH", "/bin")
+	vpWorld = 0
+	mk := func() *Configuration {
+		cfg := &Configuration{buildEnvStored: &storedBuildEnv{}}
+		cfg.Build.Lang, cfg.Build.Nonce = "en_GB.UTF-8", "1402"
+		cfg.BuildEnv = map[string]string{"aa": "1", "bb": "2"}
+		cfg.Build.PassEnv = []string{"PASSED"}
+		cfg.Please.Location = "/plz"
+		setBuildPath(&cfg.Build.Path, cfg.Build.PassEnv, cfg.Build.PassUnsafeEnv)
+		return cfg
+	}
+	h0 := mk().Hash()
+	h1 := mk().Hash()
+	same := len(h0) == len(h1)
+	for i := 0; same && i < len(h0); i++ {
+		if h0[i] != h1[i] {
+			same = false
+		}
+	}
+	vpAssert("config-hash-independent-of-map-iteration-order", same)
 }
